@@ -107,12 +107,14 @@ def datadesc(datafield: str) -> str:
     """
     Get description of data field.
 
-    :param str datafield: datafield e.g. 'DF234'
+    :param str datafield: datafield or attribute name e.g. 'DF234', 'IDF011_03'
     :return: datafield description
     :rtype: str
     """
 
-    (_, _, _, desc) = RTCM_DATA_FIELDS[datafield[0:5]]
+    if datafield not in RTCM_DATA_FIELDS:  # indexed attribute e.g. DF406_01
+        datafield = att2name(datafield)
+    (_, _, _, desc) = RTCM_DATA_FIELDS[datafield]
     return desc
 
 
